@@ -266,6 +266,10 @@ fn name_probes(ctx: &Ctx, vm: &mut VM) {
         "hlt1", "nop1", "int1", "into1", "cs1", "ds1", "es1", "ss1", "fs", "gs", "al1", "ax1", "si1", "flags1", "reg1", "mem1", "print1", "macro1", "def1", "set1", "offset1"] {
         words.push(w.to_string());
     }
+    // names with a non-ASCII letter after the first character (the interpreter's names are ASCII)
+    for w in ["r\u{e9}p\u{e9}ter", "gr\u{f6}\u{df}e", "na\u{ef}ve", "x\u{b2}", "se\u{f1}al", "label\u{e9}", "a\u{3b1}", "d\u{436}", "t\u{fc}r1", "_\u{e9}"] {
+        words.push(w.to_string());
+    }
     // keywords of the assembler with one character appended / prepended
     for t in crate::grammar::all_terminals() {
         if t.chars().all(|c| c.is_ascii_alphabetic()) && t.chars().all(|c| c.is_ascii_lowercase()) && t.len() >= 2 {
@@ -383,6 +387,35 @@ fn boundary_probes(ctx: &Ctx, vm: &mut VM) {
     }
     for n in ["0", "3", "4", "0x10", "0x21", "0x20", "255", "256"] {
         progs.push(format!("start: int {}\n", n));
+    }
+    // the same programs through the real driver: whatever it accepts must not end in an internal-error path (the
+    // print reader is given the machine state the program has established, e.g. DS = FFFFh)
+    if crate::cli::cli_available() {
+        use crate::cli::*;
+        let outs: Vec<(String, CliOut)> = progs.par_iter().map(|s| (s.clone(), run_cli(s.as_bytes(), Stdin::Closed, false, 8 << 20, 30_000))).collect();
+        for (src, out) in outs {
+            ctx.add_evals(1);
+            if matches!(out.status, Status::Timeout | Status::SpawnError(_)) {
+                ctx.inconclusive(&format!("boundary probe through the CLI: {:?}", out.status));
+                continue;
+            }
+            let so = out.out_str();
+            if so.contains("Internal Error") && !so.contains("ret is encountered without corresponding call") {
+                ctx.fail(Failure {
+                    key: "c10|cli|boundary-probe|internal-error".into(),
+                    what: format!("accepted program {:?} ended in an internal-error path: {}", src, so.lines().filter(|l| l.contains("Error")).take(2).collect::<Vec<_>>().join(" / ")),
+                    replay: json!({"kind":"cli","source":src,"stdin":"","interpreted":false,"forbid":["Internal Error"]}),
+                });
+            } else if !out.clean() {
+                ctx.fail(Failure {
+                    key: "c10|cli|boundary-probe|abnormal-exit".into(),
+                    what: format!("program {:?}: status {:?} {}", src, out.status, out.err_str().lines().next().unwrap_or("")),
+                    replay: json!({"kind":"cli","source":src,"stdin":"","interpreted":false}),
+                });
+            } else {
+                ctx.class("c10/boundary-probe/cli-run", 1);
+            }
+        }
     }
     for src in progs {
         ctx.add_evals(1);
